@@ -142,6 +142,9 @@ type c18Case struct {
 	// SlowHandler (end to end only): the application's handler of the Disconnected event takes 8 intervals (a
 	// StreamManager spends that time reconnecting inside it); the ended session's keepalive must be silent meanwhile
 	SlowHandler bool `json:"slow_handler,omitempty"`
+	// WS (end to end only, instead of TLS): WebSocket transport, where the keepalive is a ping frame the library waits
+	// to be answered; the wrapped Transport counts the attempts (the ping frames themselves are not visible to the peer)
+	WS bool `json:"ws,omitempty"`
 }
 
 func genC18(t *rapid.T) c18Case {
@@ -163,6 +166,9 @@ func genC18(t *rapid.T) c18Case {
 		c.StreamClose = rapid.Bool().Draw(t, "streamClose")
 		c.TLS = rapid.Bool().Draw(t, "tls")
 		c.SlowHandler = rapid.Bool().Draw(t, "slowHandler")
+		if !c.TLS && rapid.IntRange(0, 2).Draw(t, "ws") == 0 {
+			c.WS = true
+		}
 	}
 	return c
 }
@@ -274,34 +280,73 @@ func runC18E2E(c c18Case) vh.Result {
 	established := make(chan struct{})
 	cut := make(chan struct{})
 	probe := make(chan struct{})
-	srv, err := peer.Listen(func(pc *peer.Conn) {
-		pconn = pc
-		out := pc.Negotiate(&peer.Script{Mechs: []string{"PLAIN"}, OfferTLS: c.TLS, Cert: "valid"}, 10*time.Second)
-		if !out.Established {
-			return
+	const probeMsg = `<message xmlns="jabber:client" id="c18-probe" type="chat" from="a@b/c" to="user@localhost/res"><body>still there</body></message>`
+	var addr string
+	if c.WS {
+		res.Label("over-websocket")
+		wsrv, err := peer.ListenWS("xmpp", func(wc *peer.WSConn) {
+			out := wc.WSNegotiate(&peer.Script{Mechs: []string{"PLAIN"}}, 10*time.Second)
+			if !out.Established {
+				return
+			}
+			close(established)
+			go func() {
+				select {
+				case <-probe:
+					wc.Send(probeMsg)
+				case <-cut:
+				}
+				<-cut
+				if c.StreamClose {
+					wc.Send(`<close xmlns="` + peer.NSFraming + `"/>`) // the connection stays open: only the stream has ended
+				} else {
+					wc.DropTCP(3 * time.Second)
+				}
+			}()
+			// keep reading, so that ping frames are answered
+			for {
+				if ev := wc.Recv(30 * time.Second); ev.Kind == "eof" || ev.Kind == "timeout" {
+					return
+				}
+			}
+		})
+		if err != nil {
+			res.Fail("harness", "listen: %v", err)
+			return res
 		}
-		close(established)
-		go func() {
-			select {
-			case <-probe:
-				pc.Send(`<message id="c18-probe" type="chat" from="a@b/c" to="user@localhost/res"><body>still there</body></message>`)
-			case <-cut:
+		defer wsrv.Close()
+		addr = wsrv.URL
+	} else {
+		srv, err := peer.Listen(func(pc *peer.Conn) {
+			pconn = pc
+			out := pc.Negotiate(&peer.Script{Mechs: []string{"PLAIN"}, OfferTLS: c.TLS, Cert: "valid"}, 10*time.Second)
+			if !out.Established {
+				return
 			}
-			<-cut
-			if c.StreamClose {
-				pc.Send("</stream:stream>") // the socket stays open: only the stream has ended
-			} else {
-				pc.HalfClose()
-			}
-		}()
-		pc.Drain(30 * time.Second)
-	})
-	if err != nil {
-		res.Fail("harness", "listen: %v", err)
-		return res
+			close(established)
+			go func() {
+				select {
+				case <-probe:
+					pc.Send(probeMsg)
+				case <-cut:
+				}
+				<-cut
+				if c.StreamClose {
+					pc.Send("</stream:stream>") // the socket stays open: only the stream has ended
+				} else {
+					pc.HalfClose()
+				}
+			}()
+			pc.Drain(30 * time.Second)
+		})
+		if err != nil {
+			res.Fail("harness", "listen: %v", err)
+			return res
+		}
+		defer srv.Close()
+		addr = srv.Addr
 	}
-	defer srv.Close()
-	cl, rec, _, err := newTestClientCfg(srv.Addr, clientOpt{Insecure: !c.TLS, Keepalive: interval})
+	cl, rec, _, err := newTestClientCfg(addr, clientOpt{Insecure: !c.TLS, Keepalive: interval})
 	if err != nil {
 		res.Fail("harness", "NewClient: %v", err)
 		return res
@@ -338,6 +383,10 @@ func runC18E2E(c c18Case) vh.Result {
 	}
 	desc := fmt.Sprintf("%+v", c)
 	wsBytes := func() (n int, bad string) {
+		if c.WS {
+			p, _ := wrap.snapshot() // ping frames are not visible to the peer: count the attempts
+			return len(p), ""
+		}
 		for _, e := range pconn.Transcript() {
 			if e.Dir == "recv" && e.Kind == "ws" {
 				for _, ch := range e.Raw {
@@ -431,7 +480,7 @@ func runC18E2E(c c18Case) vh.Result {
 
 var c18 = vh.Define(&vh.Def[c18Case]{
 	Property: "C18", Name: "keepalive",
-	Rule: "interval 2-40 ms x {k-th keepalive write fails, k in 1-10 | session ends after a generated fraction of the interval (1-100 tenths) | steady} x {bare keepalive loop on a stub Transport | real Client whose Transport is wrapped (Ping fails at k) against the scripted peer, the session ending by a cut of the connection or by </stream:stream> on a connection that stays open, over clear-text TCP or STARTTLS, the application's Disconnected handler returning at once or after 8 intervals (at most one keepalive may be attempted while it runs)}; oracle: n keepalives never take less than (n-1) intervals (a ticker never fires early: sound upper bound on the rate) at least one within 100 intervals + 3 s, each is a single newline on the wire, after the failing keepalive Close is called exactly once, no further keepalive follows, the loop returns and (end to end) the loss is reported by one error callback and one Disconnected event, no keepalive starts later than max(3 intervals, 100 ms) after the session ended and the loop returns; non-trivial = a failure index or an end time was drawn, or the end-to-end variant",
+	Rule: "interval 2-40 ms x {k-th keepalive write fails, k in 1-10 | session ends after a generated fraction of the interval (1-100 tenths) | steady} x {bare keepalive loop on a stub Transport | real Client whose Transport is wrapped (Ping fails at k) against the scripted peer, the session ending by a cut of the connection or by </stream:stream> on a connection that stays open, over clear-text TCP, STARTTLS or WebSocket (ping frames; attempts counted in the wrapped Transport), the application's Disconnected handler returning at once or after 8 intervals (at most one keepalive may be attempted while it runs)}; oracle: n keepalives never take less than (n-1) intervals (a ticker never fires early: sound upper bound on the rate) at least one within 100 intervals + 3 s, each is a single newline on the wire, after the failing keepalive Close is called exactly once, no further keepalive follows, the loop returns and (end to end) the loss is reported by one error callback and one Disconnected event, no keepalive starts later than max(3 intervals, 100 ms) after the session ended and the loop returns; non-trivial = a failure index or an end time was drawn, or the end-to-end variant",
 	Quick: 160, Thorough: 2400, Journal: true,
 	Gen: genC18, Run: runC18,
 })
